@@ -15,7 +15,7 @@ sed "s#/tmp/mut_$name#$wt#g" $demo > /tmp/demo_$name.py
 sed "s#/tmp/mut_$name#/repo#g" $demo > /tmp/demo_$name.py
 ( cd /repo && PYTHONPATH=/repo PYTHONHASHSEED=0 PYTHONDONTWRITEBYTECODE=1 timeout 300 /venv/bin/python /tmp/demo_$name.py >/dev/null 2>&1 ); without=$?
 rm -f /tmp/demo_$name.py
-out=$(VERIF_REPO=$wt ./check $prop 2>&1); rc=$?
+out=$(VERIF_NO_EVIDENCE=1 VERIF_REPO=$wt ./check $prop 2>&1); rc=$?
 viol=$(echo "$out" | grep -m1 '^VIOLATION'); what=$(echo "$out" | grep -m1 'what:\|broken:')
 git -C /repo worktree remove --force $wt
 /venv/bin/python - "$name" "$with" "$without" "$rc" "$viol" "$what" <<'PY'
